@@ -1122,12 +1122,13 @@ def Statement_modify_where_spec : Prop :=
       ∀ x, x ∈ (evalModify c u s).quads ↔
         Spec.OpDeleteInsert s.quads (specSolutions (u.algDataset c s) n P) sk u.withG (u.del.getD []) (u.ins.getD []) x
 
-/-- … proved wherever `RV.C04.Alg.safe P` holds (decidable; evaluated by the harness on every generated pattern): the
+/-- … proved wherever `RV.C04.Alg.safeIn P []` holds — C04's context-sensitive `Safe` for an empty context: at the top of an
+    operation nothing is pushed in (implied by `Alg.safe P`; decidable; evaluated by the harness on every generated pattern): the
     model's solutions — rdflib's top-down evaluator with binding push-down, on rdflib's own annotated tree — are a
     permutation of the §18 solutions (`RV.C04.pushdown`), and OpDeleteInsert is invariant under permutations. -/
 theorem modify_where_spec_partial (c : Cfg) (u : Modify) (s : St) (n : Nat) (P : C04.Alg)
     (hw : u.wmode = .alg n P) (hf : u.flt = none) (hk : s.known.Nodup) (hws : C04.WellScoped n P)
-    (hsafe : P.safe = true) :
+    (hsafe : P.safeIn [] = true) :
     ∃ sk : Nat → Nat → Option Nat,
       (∀ i l v, sk i l = some v → s.next ≤ v) ∧
       (∀ i j l l' v, sk i l = some v → sk j l' = some v → i = j ∧ l = l') ∧
@@ -1136,7 +1137,7 @@ theorem modify_where_spec_partial (c : Cfg) (u : Modify) (s : St) (n : Nat) (P :
   obtain ⟨sk, h1, h2, h3⟩ := modify_spec c u s
   have hp : (u.solutions c s).Perm (specSolutions (u.algDataset c s) n P) := by
     rw [solutions_alg c u s hw hf]
-    exact (C04.evalPart_top n _ P (algDataset_WF c u s hk) hsafe hws _).map _
+    exact (C04.evalPart_top0 n _ P (algDataset_WF c u s hk) hsafe hws _).map _
   obtain ⟨sk', g1, g2, g3⟩ := op_delete_insert_perm s.quads _ _ sk s.next u.withG (u.del.getD []) (u.ins.getD []) hp h1 h2
   exact ⟨sk', g1, g2, fun x => (h3 x).trans (g3 x)⟩
 
@@ -1200,7 +1201,7 @@ def optModify : Modify :=
   { withG := none, del := none, ins := some [((.var 0, .const (.iri 5), .var 2), .dflt)],
     using_ := [], named := [], where_ := [], flt := none, wmode := .alg 3 optPattern }
 
-example : optPattern.safe = true ∧ C04.WellScoped 3 optPattern := by
+example : (optPattern.safe = true ∧ optPattern.safeIn [] = true) ∧ C04.WellScoped 3 optPattern := by
   refine ⟨by decide, ?_⟩
   intro v hv
   simp [optPattern, C04.Alg.allVars, C04.TP.vars, C04.Pos.vars, C04.Expr.vars] at hv
@@ -1222,7 +1223,7 @@ def k2Modify : Modify :=
   { withG := none, del := none, ins := some [((.var 0, .const (.iri 5), .const (.iri 3)), .dflt)],
     using_ := [], named := [], where_ := [], flt := none, wmode := .alg 2 k2Pattern }
 
-example : k2Pattern.safe = false := by decide
+example : k2Pattern.safe = false ∧ k2Pattern.safeIn [] = false := by decide
 
 theorem modify_where_spec_witness : ¬ Statement_modify_where_spec := by
   intro h
